@@ -6,6 +6,7 @@ package main
 // the results have on that way and the facts that hold on it.
 
 import (
+	"go/constant"
 	"go/token"
 	"go/types"
 
@@ -17,6 +18,7 @@ type retCase struct {
 	Vals  []ssa.Value // the results on this way (phis of the return block replaced by their incoming values)
 	Facts []Cmp       // dominating facts of the way (edge facts for an expanded phi)
 	At    ssa.Instruction
+	Zero  *ssa.Alloc      // for the way on which a result cell was never assigned (its zero value is returned): that cell
 	To    *ssa.BasicBlock // for a way into a joined return: the block the edge At.Block() -> To enters; nil for a plain return
 }
 
@@ -34,9 +36,115 @@ func returnCases(f *ssa.Function) []retCase {
 		for i := range ret.Results {
 			vals[i] = cellValue(retOperand(ret, i))
 		}
-		out = append(out, expandCase(retCase{Ret: ret, Vals: vals, Facts: factsAt(ret), At: ret}, b, 0)...)
+		for _, c := range expandCells(retCase{Ret: ret, Vals: vals, Facts: factsAt(ret), At: ret}) {
+			if c.At == ssa.Instruction(ret) {
+				out = append(out, expandCase(c, b, 0)...)
+			} else {
+				out = append(out, c)
+			}
+		}
 	}
 	return out
+}
+
+// expandCells: named results of a function that defers live in memory cells. A result that is still a load of such a
+// cell at the return (several assignments can be the last one: `if ok { value, found = … }; return`) is split by the
+// stores that can reach the return: one case per reaching store with the facts that hold at that store, plus the
+// zero value when the return can be reached without any.
+func expandCells(c retCase) []retCase {
+	pivot := -1
+	var cells []*ssa.Alloc
+	for i, v := range c.Vals {
+		cells = append(cells, nil)
+		if ld, ok := v.(*ssa.UnOp); ok && ld.Op == token.MUL {
+			if al, ok := ld.X.(*ssa.Alloc); ok {
+				cells[i] = al
+				pivot = i
+			}
+		}
+	}
+	if pivot < 0 {
+		return []retCase{c}
+	}
+	stores, zero := cellWays(cells[pivot], c.Ret)
+	if len(stores) == 0 {
+		return []retCase{c}
+	}
+	var out []retCase
+	for _, st := range stores {
+		nc := retCase{Ret: c.Ret, Facts: factsAt(st), At: st}
+		nc.Vals = append([]ssa.Value{}, c.Vals...)
+		nc.Vals[pivot] = st.Val
+		for j, al := range cells {
+			if j == pivot || al == nil {
+				continue
+			}
+			// the companion result assigned together with it: the store to that cell in the same block
+			for _, ins := range st.Block().Instrs {
+				if s2, ok := ins.(*ssa.Store); ok && s2.Addr == ssa.Value(al) {
+					nc.Vals[j] = s2.Val
+				}
+			}
+		}
+		out = append(out, nc)
+	}
+	if zero {
+		nc := retCase{Ret: c.Ret, Facts: c.Facts, At: c.Ret, Zero: cells[pivot]}
+		nc.Vals = append([]ssa.Value{}, c.Vals...)
+		nc.Vals[pivot] = zeroConst(cells[pivot].Type().Underlying().(*types.Pointer).Elem())
+		out = append(out, nc)
+	}
+	return out
+}
+
+func zeroConst(t types.Type) ssa.Value {
+	if bt, ok := t.Underlying().(*types.Basic); ok {
+		switch {
+		case bt.Info()&types.IsBoolean != 0:
+			return ssa.NewConst(constant.MakeBool(false), t)
+		case bt.Info()&types.IsInteger != 0:
+			return ssa.NewConst(constant.MakeInt64(0), t)
+		case bt.Info()&types.IsString != 0:
+			return ssa.NewConst(constant.MakeString(""), t)
+		}
+	}
+	return ssa.NewConst(nil, t)
+}
+
+// cellWays: the stores to the cell that can be the last one before `at` (reaching definitions, by a backward walk over
+// the blocks), and whether `at` can be reached without any store (the cell then holds its zero value).
+func cellWays(cell *ssa.Alloc, at ssa.Instruction) (stores []*ssa.Store, zero bool) {
+	seen := map[*ssa.BasicBlock]bool{}
+	var walk func(b *ssa.BasicBlock, upto int)
+	walk = func(b *ssa.BasicBlock, upto int) {
+		for k := upto - 1; k >= 0; k-- {
+			if st, ok := b.Instrs[k].(*ssa.Store); ok && st.Addr == ssa.Value(cell) {
+				for _, s := range stores {
+					if s == st {
+						return
+					}
+				}
+				stores = append(stores, st)
+				return
+			}
+			if b.Instrs[k] == ssa.Instruction(cell) {
+				zero = true
+				return
+			}
+		}
+		if len(b.Preds) == 0 {
+			zero = true
+			return
+		}
+		for _, pb := range b.Preds {
+			if !seen[pb] {
+				seen[pb] = true
+				walk(pb, len(pb.Instrs))
+			}
+		}
+	}
+	walk(at.Block(), instrIndex(at))
+	return
 }
 
 // expandCase: if a result is a phi of block b (the block the case is "at"), split the case by predecessor.
